@@ -94,20 +94,39 @@ Definition c17_binomial (t : c17_ity) (n k : Z) : c17_ires := c17_binomial_fuel 
      if (k < 0 || k > n) return 0;
      if (k > n-k) return binomial(n, n-k);
      T bin = 1;
-     for (T i = 1; i <= k; ++i) { const T g = std::gcd(bin, i); bin = (bin/g) * ((n-k+i)/(i/g)); }
-     return bin;                                                        (std::gcd modelled by Z.gcd) *)
+     for (T i = 1; i <= k; ++i) {
+       T g = bin, r = i;
+       while (r != 0) { const T t = g % r; g = r; r = t; }          (Euclid: g = gcd(bin, i))
+       bin = (bin/g) * ((n-k+i)/(i/g));
+     }
+     return bin;                                                                            *)
+(* a % b: remainder of the division truncating toward zero; b = 0 is UB *)
+Definition c17_irem (t : c17_ity) (a b : Z) : c17_ires :=
+  if b =? 0 then C17_UB else c17_fit t (Z.rem a b).
+
+(* the while loop, state (g, r); fuel exhaustion is C17_OutOfFuel (C17_euclid_gcd: fuel > r suffices) *)
+Fixpoint c17_euclid_loop (fuel : nat) (t : c17_ity) (g r : Z) : c17_ires :=
+  match fuel with
+  | O => C17_OutOfFuel
+  | S f => if r =? 0 then C17_Val g
+           else c17_bind (c17_irem t g r) (fun t' => c17_euclid_loop f t r t')
+  end.
+
+(* fuel used by the model for gcd(bin, i): i + 1 (the remainders decrease strictly) *)
+Definition c17_euclid_fuel (i : Z) : nat := S (Z.to_nat i).
+
 Fixpoint c17_binomial_fix_loop (t : c17_ity) (cnt : nat) (nk i bin : Z) : c17_ires :=
   match cnt with
   | O => C17_Val bin
   | S c =>
-    let g := Z.gcd bin i in
+    c17_bind (c17_euclid_loop (c17_euclid_fuel i) t bin i) (fun g =>
     c17_bind (c17_idiv t bin g) (fun a =>
     c17_bind (c17_fit t (nk + i)) (fun b =>
     c17_bind (c17_idiv t i g) (fun d =>
     c17_bind (c17_idiv t b d) (fun e =>
     c17_bind (c17_fit t (a * e)) (fun bin' =>
     c17_bind (c17_fit t (i + 1)) (fun i' =>
-    c17_binomial_fix_loop t c nk i' bin'))))))
+    c17_binomial_fix_loop t c nk i' bin')))))))
   end.
 
 Fixpoint c17_binomial_fix_fuel (fuel : nat) (t : c17_ity) (n k : Z) : c17_ires :=
